@@ -72,7 +72,7 @@ class TKEY(dns.rdata.Rdata):
     def from_text(
         cls, rdclass, rdtype, tok, origin=None, relativize=True, relativize_to=None
     ):
-        algorithm = tok.get_name(relativize=False)
+        algorithm = tok.get_name(origin, relativize=False)
         inception = tok.get_uint32()
         expiration = tok.get_uint32()
         mode = tok.get_uint16()
